@@ -567,6 +567,36 @@ func (r *stateRun) apply(op StateOp) {
 			r.col.Inc("op_commit")
 		}
 	case "copy":
+		// A copy takes over code that was set and not committed yet, and is the one that commits:
+		// the root it commits must reopen (through the same database) with that code. The code is
+		// unique to this step, so no earlier commit can have stored it.
+		if op.Slot%2 == 0 {
+			uniq := []byte{0x60, byte(r.step), 0x60, byte(r.step >> 8), 0x50, 0x50, 0x5b, byte(op.Addr), byte(op.Slot)}
+			r.st.SetCode(addr, uniq)
+			m.get(op.Addr).Code = append([]byte{}, uniq...)
+			cc, ccm := r.st.Copy(), m.clone()
+			croot, err := cc.Commit(r.flag())
+			if err != nil {
+				r.add("commit-error", "Commit of a copy: %v", err)
+				return
+			}
+			ccm.finalise(r.flag(), r.existsFn(cc))
+			ccm.committed()
+			if want := ccm.refRoot(); croot != want {
+				r.add("copy-root-differs-from-reference/committed-by-the-copy", "Commit of a copy = %x, reference root of its content = %x", croot, want)
+				return
+			}
+			st4, err := state.New(croot, r.sdb)
+			if err != nil {
+				r.add("reopen-committed-root-failed", "state.New(%x) of a root committed by a copy: %v", croot, err)
+				return
+			}
+			ccm.Refund, ccm.Logs = 0, 0
+			if !r.compare(st4, ccm, "state-committed-by-a-copy-differs-on-reopen") {
+				return
+			}
+			r.col.Inc("probe_copy_commits_code_set_before_the_copy")
+		}
 		cp := r.st.Copy()
 		cm := m.clone()
 		if !r.compare(cp, cm, "copy-differs-from-original") {
